@@ -13,6 +13,10 @@
              whose second sub-cluster (weight 0) has backends 5 (live) and 6 (refuses): every in-cluster selection fails, Balance
              raises RetryTime to RetryMax and selects across sub-clusters (or returns ErrBkNoBackend when CrossRetry = 0);
              2 = a cluster with two empty sub-clusters: Balance returns ErrBkCrossRetryBalance until the budget is exhausted.
+   optional 8th input element hist (topo must be 0): how the cluster got its retry settings: 0 at start-up; 1 the cluster was
+             put into service by a reload (ServerDataConfReload + GslbDataConfReload) just before the request; 2 it was added by a
+             reload with OTHER retry settings and changed to these by a second reload; 3 as 1 but reloaded once more unchanged.
+             The bounds are those of the current configuration.
    output: [[backend chosen per attempt] [backends that received request bytes, in order] status]
    The balancer's choices are left open: agree_C08 takes them from the observation and checks them against the model
    (in-cluster attempts in sub-cluster 0, cross attempts in another one) and predicts everything else. *)
@@ -43,6 +47,9 @@ Definition decode_C08 (v : val) : option c08_input :=
   match v with
   | VL [VZ rm; VZ cr; VZ level; VZ method; VZ body; s] => decode_fields rm cr level method body s 0
   | VL [VZ rm; VZ cr; VZ level; VZ method; VZ body; s; VZ topo] => decode_fields rm cr level method body s topo
+  | VL [VZ rm; VZ cr; VZ level; VZ method; VZ body; s; VZ 0; VZ hist] =>
+    (* reload history: the behaviour must be that of the CURRENT configuration, so the model ignores hist *)
+    if (0 <=? hist) && (hist <=? 3) then decode_fields rm cr level method body s 0 else None
   | _ => None
   end.
 
